@@ -337,11 +337,17 @@ class A:
             current().check("slice_start_nonneg", idx.start >= 0)
             cells = self.cells
             return GuardedSeq([(cells[p], idx.start <= p) for p in range(len(cells))], start=idx.start)
+        if not isinstance(idx, A) and hasattr(idx, "arr") and hasattr(idx, "index") and isinstance(getattr(idx, "arr"), A):
+            idx = idx.arr                            # a pandas Series used as an indexer: its values
         if isinstance(idx, A):
             if idx.kind == "b":
                 m = idx.cells
                 if not all(isinstance(c, bool) for c in m):
-                    raise Unsupported("boolean indexing with a symbolic mask (data-dependent shape)")
+                    from .runtime import FC
+                    if FC.active and not current().frames:
+                        m = [bool(c) for c in m]     # glue under fork-and-replay: one path per selection pattern
+                    else:
+                        raise Unsupported("boolean indexing with a symbolic mask (data-dependent shape)")
                 if len(m) != self.shape[0]:
                     raise IndexError("boolean index did not match indexed array")
                 if self.ndim == 1:
